@@ -21,6 +21,7 @@ const (
 	rxAlt
 	rxGroup
 	rxEmpty
+	rxRepeat // x{min,max}: counted repetition (max < 0: {min,}; max == min: {min})
 )
 
 type rx struct {
@@ -31,6 +32,8 @@ type rx struct {
 	lo   []byte // class ranges lo[i]-hi[i]
 	hi   []byte
 	subs []*rx
+	min  int // rxRepeat
+	max  int
 }
 
 func (r *rx) classHas(c byte) bool {
@@ -116,6 +119,23 @@ func (r *rx) write(sb *strings.Builder) {
 		sb.WriteByte('(')
 		r.subs[0].write(sb)
 		sb.WriteByte(')')
+	case rxRepeat:
+		sub := r.subs[0]
+		if sub.kind != rxLit && sub.kind != rxAny && sub.kind != rxAnyByte && sub.kind != rxClass {
+			sb.WriteString("(?:")
+			sub.write(sb)
+			sb.WriteByte(')')
+		} else {
+			sub.write(sb)
+		}
+		switch {
+		case r.max == r.min:
+			fmt.Fprintf(sb, "{%d}", r.min)
+		case r.max < 0:
+			fmt.Fprintf(sb, "{%d,}", r.min)
+		default:
+			fmt.Fprintf(sb, "{%d,%d}", r.min, r.max)
+		}
 	case rxEmpty:
 	}
 }
@@ -166,6 +186,18 @@ func (r *rx) m(s []byte, i int, k func(int) bool, steps *int) bool {
 			}
 		}
 		return false
+	case rxRepeat:
+		var rep func(n, i int) bool
+		rep = func(n, i int) bool {
+			if n >= r.min && k(i) {
+				return true
+			}
+			if r.max >= 0 && n >= r.max {
+				return false
+			}
+			return r.subs[0].m(s, i, func(j int) bool { return (j > i || n < r.min) && rep(n+1, j) }, steps)
+		}
+		return rep(0, i)
 	case rxQuest:
 		return r.subs[0].m(s, i, k, steps) || k(i)
 	case rxStar, rxPlus:
@@ -204,7 +236,27 @@ func genRx(d *draws, targets []string, depth int) *rx {
 	if len(targets) > 0 {
 		t = targets[d.n(len(targets))]
 	}
-	switch d.w(6, 3, 3, 3, 3, 2, 2, 2, 1) {
+	switch d.w(6, 3, 3, 3, 3, 2, 2, 2, 1, 3) {
+	case 9: // counted repetition of the first byte (run length of the target or one off), rest literal
+		if len(t) == 0 {
+			return &rx{kind: rxRepeat, min: 0, max: 2, subs: []*rx{{kind: rxAny}}}
+		}
+		run := 1
+		for run < len(t) && t[run] == t[0] {
+			run++
+		}
+		n := run + d.n(3) - 1
+		if n < 0 {
+			n = 0
+		}
+		rep := &rx{kind: rxRepeat, min: n, max: n, subs: []*rx{{kind: rxLit, b: t[0]}}}
+		switch d.n(3) {
+		case 1:
+			rep.max = -1
+		case 2:
+			rep.max = n + 1
+		}
+		return &rx{kind: rxCat, subs: []*rx{rep, lits(t[run:])}}
 	case 0: // exact literal
 		return lits(t)
 	case 1: // prefix + .*
